@@ -242,6 +242,18 @@ Theorem reencoding_with_own_name_refuted :
   exists e, wf_event sch_any e /\ reencode_with false (stored_form e) <> enc_event (stored_form e).
 Proof. exact reencode_own_name_refuted_proved. Qed.
 
+(* C02-F7 (open): wf_event asks that the original name of an error event parses back
+   (s_name; for the application schema: exactly one dot, name_one_dot = appdef.ParseQName).  The
+   builders accept any QName: an error event whose original name has a second dot is appended
+   successfully and its stored row then fails to decode - with any one-dot name it decodes. *)
+Theorem error_event_with_unparsable_name_unreadable :
+  exists e, e_valid e = false /\ decode sch_strict (enc_event e) = None
+            /\ forall en, name_one_dot en = true ->
+               decode sch_strict (enc_event (mkEvent (e_qid e) (e_part e) (e_poffs e) (e_ws e) (e_woffs e) (e_reg e) (e_sync e) (e_dev e)
+                                                  (e_syncat e) (e_valid e) (e_errstr e) en (e_errbytes e) (e_arg e) (e_unl e) (e_creates e) (e_updates e))) <> None
+               \/ 65535 < nlen en.
+Proof. exact unparsable_name_unreadable_proved. Qed.
+
 (* A truncated copy of a stored event is rejected, whatever the schema: every proper prefix of
    every encoding fails to decode. *)
 Theorem truncated_event_rejected :
@@ -310,6 +322,7 @@ Print Assumptions appended_event_reads_back.
 Print Assumptions reencoding_decoded_event_is_identity.
 Print Assumptions reencoding_with_own_name_refuted.
 Print Assumptions codec_roundtrip_refuted.
+Print Assumptions error_event_with_unparsable_name_unreadable.
 Print Assumptions codec_roundtrip_error_arguments_refuted.
 Print Assumptions codec_roundtrip_long_error_text_refuted.
 Print Assumptions codec_roundtrip_partial.
